@@ -96,7 +96,7 @@ def _num(x):
         fr = fractions.Fraction(float(x))
         # A1 (floats as reals) applies to concrete float intermediates too: 0.3333333333333333 is read as 1/3
         nice = fr.limit_denominator(10 ** 6)
-        if fr == nice or abs(float(nice) - float(x)) <= 4e-16 * max(1.0, abs(float(x))):
+        if fr == nice or abs(float(nice) - float(x)) <= 4e-16 * abs(float(x)):
             fr = nice
         return z3.RealVal(str(fr)), "real"
     if isinstance(x, SBV):
